@@ -170,6 +170,17 @@ def onDemandExpected (M : Sys Nat Nat) (key : Nat → Nat) (reqs : List Nat) : L
       (pend ++ new, gen ++ new, ev ++ [s])
   (reqs.foldl step (initP, gen0, [])).2.2
 
+/-- `unique_state_count` a complete run must report (`o-disc`): the number of reachable in-boundary states;
+    `reach` = `reachSet M g.n` (adequacy: `C19_oracle_wantS`, Props/C19OnDemand.lean) -/
+def wantU (reach : List Nat) : Nat := reach.length
+
+/-- `state_count` a complete run must report (`o-disc`): every reachable state is expanded once, an initial state once
+    per occurrence in `init_states` (adequacy: `C19_oracle_wantS`, Props/C19OnDemand.lean) -/
+def wantS (M : Sys Nat Nat) (reach : List Nat) : Nat :=
+  let ib := M.initB
+  let extra := ib.zipIdx.filter fun (s, i) => (ib.take i).contains s
+  ib.length + (reach.map fun s => (M.succB s).length).sum + (extra.map fun (s, _) => (M.succB s).length).sum
+
 def handle : Drv.Handler
   | "path-fromfps", [g, fps, l] => do
     let g ← graph? g; let fps ← fps.nats?; let l ← l.nats?
@@ -300,12 +311,8 @@ def handle : Drv.Handler
     if !missed.isEmpty then pure (" ".intercalate missed) else
     match counts with
     | [sc, uc] =>
-      let wantU := reach.length
-      -- every reachable state is expanded once, an initial state once per occurrence in `init_states`
-      let ib := M.initB
-      let extra := ib.zipIdx.filter fun (s, i) => (ib.take i).contains s
-      let wantS := ib.length + (reach.map fun s => (M.succB s).length).sum
-                     + (extra.map fun (s, _) => (M.succB s).length).sum
+      let wantU := wantU reach
+      let wantS := wantS M reach
       pure (if uc != wantU then s!"unique-count {uc} != reachable {wantU}"
         else if sc != wantS then s!"state-count {sc} != {wantS}" else "ok")
     | _ => pure "ok"
